@@ -116,7 +116,10 @@ pub async fn rl_run(input: &Value) -> Value {
 		match tokio::time::timeout(remaining, rl.block_until_allowed()).await {
 			Ok(_) => {
 				let r = Instant::now();
-				events.push(json!([instant_ns(&c).to_string(), instant_ns(&r).to_string()]));
+				events.push(json!([
+					instant_ns(&c).to_string(),
+					instant_ns(&r).to_string()
+				]));
 			}
 			Err(_) => {
 				events.push(json!([instant_ns(&c).to_string(), Value::Null]));
